@@ -41,6 +41,15 @@ def _child(ctx, step, wfd, outp, errp):
     # stdout / stderr of the command (and of its pool workers) go to files
     fo = os.open(outp, os.O_WRONLY | os.O_CREAT | os.O_TRUNC, 0o600)
     fe = os.open(errp, os.O_WRONLY | os.O_CREAT | os.O_TRUNC, 0o600)
+    if step.get("stderr") == "full":
+        # standard error is a device without space (reuse ... 2>/dev/full): every write to it fails with ENOSPC
+        os.close(fe)
+        fe = os.open("/dev/full", os.O_WRONLY)
+    elif step.get("stderr") == "epipe":
+        # standard error is a pipe whose reader has gone away (SIGPIPE is ignored by Python: EPIPE)
+        os.close(fe)
+        r_, fe = os.pipe()
+        os.close(r_)
     os.dup2(fo, 1)
     os.dup2(fe, 2)
     os.close(fo)
